@@ -1947,6 +1947,7 @@ func (sa *Application) removeAllocationInternal(allocationKey string, releaseTyp
 	var event applicationEvent = EventNotNeeded
 	var eventWarning string
 	removeApp := false
+	completeAfterResume := false
 	// update correct allocation tracker
 	if alloc.IsPlaceholder() {
 		// make sure we account for the placeholders being removed in the tracking data
@@ -1977,7 +1978,9 @@ func (sa *Application) removeAllocationInternal(allocationKey string, releaseTyp
 				}
 				if sa.IsResuming() {
 					event = RunApplication
-					removeApp = false
+					// an application that resumes with nothing left to run completes right away
+					completeAfterResume = sa.hasZeroAllocations()
+					removeApp = completeAfterResume
 				}
 				eventWarning = "Application state not changed while removing a placeholder allocation"
 			}
@@ -2006,6 +2009,13 @@ func (sa *Application) removeAllocationInternal(allocationKey string, releaseTyp
 			log.Log(log.SchedApplication).Warn(eventWarning,
 				zap.String("currentState", sa.CurrentState()),
 				zap.Stringer("event", event),
+				zap.Error(err))
+		}
+	}
+	if completeAfterResume {
+		if err := sa.HandleApplicationEvent(CompleteApplication); err != nil {
+			log.Log(log.SchedApplication).Warn("Application state not changed to Completing after resuming without asks or allocations",
+				zap.String("currentState", sa.CurrentState()),
 				zap.Error(err))
 		}
 	}
